@@ -1123,11 +1123,11 @@ void ThreadPool::scheduleBulkImpl(size_t count, Generator&& gen) {
       gen(i)();
       ++i;
     } else {
-      // (room <= 0 only when the pool is over its load factor but the inline depth is used up: queue
+      // (room < 0 only when the pool is over its load factor but the inline depth is used up: queue
       // a chunk anyway)
       ssize_t room = loadFactor - curWork;
       size_t toEnqueue = std::min(
-          {count - i, chunkSize, room > 0 ? static_cast<size_t>(room) : chunkSize});
+          {count - i, chunkSize, room >= 0 ? static_cast<size_t>(room) : chunkSize});
       if (toEnqueue == 0) {
         toEnqueue = 1;
       }
